@@ -13,6 +13,33 @@ Proof.
   intros y Hy. apply H. right. exact Hy.
 Qed.
 
+Definition qname (q : QuantP) : str := dflt [] (qa_name q).
+Lemma dedup_quant_id l : forall seen,
+  NoDup (map qname l) -> (forall q, In q l -> ~ In (qname q) seen) -> dedup_quant seen l = l.
+Proof.
+  induction l as [|q r IH]; intros seen Hn Hs; simpl; [reflexivity|].
+  inversion Hn; subst. fold (qname q).
+  assert (E : in_str (qname q) seen = false).
+  { destruct (in_str (qname q) seen) eqn:E; [|reflexivity]. apply in_str_In in E. exfalso. exact (Hs q (or_introl eq_refl) E). }
+  rewrite E. f_equal. apply IH; [assumption|].
+  intros q' Hq' [Hc|Hc]; [apply H1; rewrite Hc; apply in_map; exact Hq' | exact (Hs q' (or_intror Hq') Hc)].
+Qed.
+Lemma nodup_names_concat (h : str -> list QuantP) l :
+  (forall k, In k l -> map qname (h k) = [] \/ map qname (h k) = [k]) -> NoDup l ->
+  NoDup (map qname (concat (map h l))).
+Proof.
+  intros Hh Hn. induction l as [|k r IH]; simpl; [constructor|].
+  inversion Hn; subst. rewrite map_app.
+  assert (IHr : NoDup (map qname (concat (map h r)))) by (apply IH; [intros k0 Hk0; apply Hh; right; exact Hk0 | assumption]).
+  destruct (Hh k (or_introl eq_refl)) as [E|E]; rewrite E; simpl; [exact IHr|].
+  constructor; [|exact IHr]. intros Hin. apply H1.
+  apply in_map_iff in Hin. destruct Hin as (q & Eq & Hq). apply in_concat in Hq. destruct Hq as (lq & Hlq & Hq).
+  apply in_map_iff in Hlq. destruct Hlq as (k0 & <- & Hk0).
+  destruct (Hh k0 (or_intror Hk0)) as [E0|E0].
+  - apply (in_map qname) in Hq. rewrite E0 in Hq. contradiction.
+  - apply (in_map qname) in Hq. rewrite E0 in Hq. destruct Hq as [Hq|[]]. rewrite <- Eq, <- Hq. exact Hk0.
+Qed.
+
 Section GraphSer.
   Variable g : GraphP.
   Variables (allow_dev : bool) (visible : list str).
@@ -142,7 +169,16 @@ Section GraphSer.
     assert (Hflat : concat (map snd nres) = map infof (concat (map n_outputs (g_nodes g)))).
     { rewrite Hn3, concat_map, map_map. reflexivity. }
     split; [exact Hn2|]. split; [reflexivity|]. split; [reflexivity|].
-    rewrite Hflat. unfold ins, inits, outs. rewrite !map_map. cbn [fst snd].
+    assert (Hdq : dedup_quant [] (concat (map q_out_quant outs)) = concat (map q_out_quant outs)).
+    { apply dedup_quant_id; [|intros q0 _ []].
+      apply nodup_names_concat; [|exact (w_outs_nd _ _ _ W)].
+      intros k Hk. unfold q_out_quant. destruct (_ || _); [left; reflexivity|].
+      unfold ser_quant. destruct (v_quant (fv k)); [left; reflexivity | right].
+      simpl. unfold qname. cbn [qa_name dflt]. rewrite (fv_name g k (w_outs_decl _ _ _ W k Hk)). reflexivity. }
+    assert (Hdq' : dedup_quant [] (concat (map (fun x : VInfoP => q_out_quant (vname x)) (g_outputs g)))
+                   = concat (map (fun x : VInfoP => q_out_quant (vname x)) (g_outputs g))).
+    { unfold outs in Hdq. rewrite map_map in Hdq. exact Hdq. }
+    rewrite Hflat. unfold ins, inits, outs. rewrite !map_map. cbn [fst snd]. rewrite Hdq'.
     repeat split; reflexivity.
   Qed.
 End GraphSer.
